@@ -198,6 +198,24 @@ class C07(Monitor):
                 ctx.count("c07_dropoffs")
                 if req is not None and req.destination != d["geoid"]:
                     ctx.violate("C07", "dropoff-not-at-destination", f"request {d['request_id']} dropped at {d['geoid']} but its destination is {req.destination}", request=d["request_id"], vehicle=d["vehicle_id"])
+        # a trip ends when its route is exhausted (the drop-off is made in that step); a vehicle that still had road ahead and
+        # is no longer on that trip (other than by running dry) abandoned its passengers short of the destination
+        for v in s.vehicles.values():
+            p = ctx.prev.vehicles.get(v.id)
+            if p is None or aname(p) != "ServicingTrip" or len(p.vehicle_state.route) == 0:
+                continue
+            same = aname(v) == "ServicingTrip" and v.vehicle_state.instance_id == p.vehicle_state.instance_id
+            if same and len(v.vehicle_state.route) > 0:
+                if len(v.vehicle_state.route) <= 2:
+                    ctx.count("c07_servicing_steps_with_at_most_two_links_left")
+                continue
+            ctx.count("c07_trips_ended")
+            dest = p.vehicle_state.request.destination
+            if same:
+                if v.geoid != dest:
+                    ctx.violate("C07", "trip-ended-away-from-destination", f"{v.id} exhausted the route of {p.vehicle_state.request.id} at {v.geoid}, the destination is {dest}", vehicle=v.id, request=p.vehicle_state.request.id)
+            elif aname(v) != "OutOfService":
+                ctx.violate("C07", "trip-abandoned-before-destination", f"{v.id} left ServicingTrip of {p.vehicle_state.request.id} for {aname(v)} at {v.geoid} with {len(p.vehicle_state.route)} links still to drive (destination {dest})", vehicle=v.id, request=p.vehicle_state.request.id)
         # Repositioning: the route entered with ends at the instructed link's end
         for vid, ins in s.applied_instructions.items():
             if type(ins).__name__ == "RepositionInstruction":
